@@ -549,7 +549,7 @@ impl Check for C03 {
     fn run_shard(&self, ctx: &Ctx, rec: &mut Rec) {
         let (na, nk) = match ctx.tier {
             Tier::Quick => (3000, 1000),
-            Tier::Thorough => (20000, 8000),
+            Tier::Thorough => (60000, 24000),
         };
         prop_loop(ctx, rec, "alias", alias_strategy(), ctx.share(na), judge_alias);
         prop_loop(ctx, rec, "kill", kill_strategy(), ctx.share(nk), judge_kill);
